@@ -394,6 +394,9 @@ def shape_out(rng, idx, variant=None):
     shape = rand_shape(rng, rank, with_one=kind in ("squeeze", "transpose") or rng.random() < 0.2)
     if kind.startswith("mean") and rank == 4 and rng.random() < 0.3:
         shape = [1, rng.choice([7, 8, 16]), rng.choice([7, 8, 16]), rng.choice([8, 16, 32])]     # global average pool
+    if rank == 4 and kind in ("reshape", "squeeze", "unpack", "split", "split_v", "slice_shrink") and rng.random() < 0.2:
+        # operators the batch-size constraint exempts: rank-4 operand with batch > 1
+        shape[0] = rng.choice([2, 3])
     pre = rng.random() < 0.7
     b.net.desc.append(f"pattern=shape_out kind={kind} sink={sink} dtype={dtype} shape={shape} pre={pre}")
     x = b.input(shape)
@@ -601,14 +604,30 @@ def source_tags(net):
     """constructs of the *source* network under which a known finding of the unchanged compiler is recorded (the check
     combines the tag with the shape of the Spec's rejection; it never decides pass / fail)"""
     tags = set()
+
+    def batch4(shape):
+        return shape[0] if len(shape) == 4 else 1
+
     for o in net.ops:
-        if o.kind == "PACK":
-            out = net.tensors[o.outputs[0]]
-            if len(out.shape) == 4 and out.shape[0] > 1:
-                tags.add("pack-ofm-batch>1")
-        if o.kind == "STRIDED_SLICE" and o.opts and o.opts[1].get("NewAxisMask", 0):
+        opts = o.opts[1] if o.opts else {}
+        if o.kind in ("PACK", "CONCATENATION"):
+            # a result with batch > 1: assembled from slices with batch > 1 (inner axis), or copied as a whole (axis 0)
+            if batch4(net.tensors[o.outputs[0]].shape) > 1:
+                tags.add("npu-box-batch>1")
+        if o.kind in ("SPLIT", "SPLIT_V", "UNPACK", "STRIDED_SLICE", "SLICE"):
+            # the pieces are read as boxes of the operand; the batch-size constraint exempts these operators
+            x = net.tensors[o.inputs[1] if o.kind == "SPLIT" else o.inputs[0]]
+            if batch4(x.shape) > 1:
+                if o.kind == "UNPACK":
+                    ax = opts.get("Axis", 0)
+                    ax += 4 if ax < 0 else 0
+                    if ax != 0:
+                        tags.add("npu-box-batch>1")
+                elif any(batch4(net.tensors[t].shape) > 1 or len(net.tensors[t].shape) < 4 for t in o.outputs):
+                    tags.add("npu-box-batch>1")
+        if o.kind == "STRIDED_SLICE" and opts.get("NewAxisMask", 0):
             rank_in = len(net.tensors[o.inputs[0]].shape)
-            if o.opts[1]["NewAxisMask"] & ((1 << rank_in) - 1):
+            if opts["NewAxisMask"] & ((1 << rank_in) - 1):
                 tags.add("strided-slice-new-axis-not-trailing")
     return sorted(tags)
 
